@@ -179,6 +179,9 @@ def check(prog, run):
     run.rule("R1", "narrowing / sign-changing integer casts: operand inside the target range (interval, dominating guards, A1 for record counts)")
     run.rule("R2", "float -> integer casts: operand range-checked on every path")
     run.rule("R3", "constant left shifts cannot shift set bits out of the type")
+    run.rule("R4", "duration / composition-offset tables carry every per-sample value exactly: a run is extended only on exact equality, otherwise (1, value) is appended (C03.R6 instances) - no clamping or merging of the written deltas")
+    from . import c03
+    c03.rle_rule(prog, run, "R4")
     u = prog.lib
     g = mir.Graph(u)
     st = mir.Stores(g)
